@@ -275,6 +275,7 @@ Outcome RunC10(RunCtx& ctx)
 		sim::steps_end();
 		ctx.count(c.seekable ? "kind.file" : "kind.pipe");
 		ctx.count("binChunk." + std::to_string(c.binChunk));
+		if (c.prefix) { ctx.count("stream.starts_at_offset"); sim::probe("document-not-at-stream-position-0"); }
 		if (info.underflows >= 2) { out.nontrivial = true; sim::probe("refill>=2"); }
 		if (info.underflows >= 8) sim::probe("refill>=8");
 		if (info.seekFailed) sim::probe("seek-failed");
